@@ -17,7 +17,9 @@ the judge reads it, only the model reads the text:
   metis   G: h <n> <m> | adj <t>...                   C: xy <lonMant> <lonScale> <latMant> <latScale>
   ddsg    G: d | h <n> <m> | e <u> <v> <w> <dir>      C: n <count> | xyi <idx> <lonMant> <lonScale> <latMant> <latScale>
   (decimal coordinate = mant / 10^scale, in units of 1e-5 degree)
-  HUGE metis-ring <n> <ring> <deg> <ncoords>          thorough tier only: a parametrised file pair, see Drv/C07Huge.lean
+  PRE <k>                                             the output paths already hold the result of a previous, larger
+                                                      conversion (k arcs, k coordinates); ignored by the model
+  HUGE metis-ring <n> <ring> <deg> <ncoords>           a parametrised file pair, see Drv/C07Huge.lean
 
 obs (all determined):
   D rc=<exit status of graph_plier>                   0, or 101 for a panic; nothing else follows if not 0
@@ -315,6 +317,11 @@ def handle (c : Case) : CaseOut := Id.run do
         else
           cText := cText.push text; abs := { abs with c := abs.c.push (words ann) }
       | none => return { model := #[], verdict := .skip s!"unparsable op {(l.take 60).toString}" }
+    else if l.startsWith "PRE " then
+      -- `PRE k`: before this conversion the harness runs graph_plier on an unrelated k-arc DIMACS input with the
+      -- same file names, so the output files already exist (and are longer).  The file content the property
+      -- describes does not depend on what was at the output paths before: the model ignores the line.
+      pure ()
     else return { model := #[], verdict := .skip s!"unparsable op {(l.take 60).toString}" }
   let some fmt := fmtO | return { model := #[], verdict := .skip "no format header" }
   -- ---- model
